@@ -13,6 +13,8 @@ joined by `,`, the empty list is `-`.
 * `ctor <id>` — the constructor / flat / single macros expand to the function call itself: answer `ok same`.
 * `disp <alt> <shape> <element texts>` — `build_string`; answer `ok <text> <parse-back by the generic literal arm>`.
 * `t2show a b`, `t3show a b c`, `lshow items`, `t2parse s`, `t3parse s`, `lparse s`, `t2rt a b`, `t3rt a b c`, `lrt items`.
+* `t2rt_t k a b`, `t3rt_t k a b c`, `lrt_t k items` — the same round trips; `k` names the component types the harness instantiates
+  (the component texts are the `Display` texts of typed values).  `disperr e alt prec` — the `Err` side of the printable wrapper.
 -/
 namespace Driver.C18
 open ArrModel ArrModel.C18 Driver
@@ -83,6 +85,7 @@ def handle (op : String) (args : List String) : Option String :=
     let ndim ← parseNat? ndim; let text ← decHex text
     some (showRes showNatList (parseShape ndim text))
   | "ctor", [_] => some "ok same"
+  | "disperr", [_, _, _] => some "ok same"
   | "disp", alt :: shape :: texts :: _ => do
     let shape ← parseNatList? shape; let texts ← decList texts
     let alt := alt == "1"
@@ -118,6 +121,15 @@ def handle (op : String) (args : List String) : Option String :=
   | "t3rt", [a, b, c] => do
     let a ← decHex a; let b ← decHex b; let c ← decHex c
     some (showOptParts ((parseTuple3 idP idP idP (showTuple3 id id id (a, b, c))).map fun (a, b, c) => [a, b, c]))
+  | "t2rt_t", [_, a, b] => do
+    let a ← decHex a; let b ← decHex b
+    some (showOptParts ((parseTuple2 idP idP (showTuple2 id id (a, b))).map fun (a, b) => [a, b]))
+  | "t3rt_t", [_, a, b, c] => do
+    let a ← decHex a; let b ← decHex b; let c ← decHex c
+    some (showOptParts ((parseTuple3 idP idP idP (showTuple3 id id id (a, b, c))).map fun (a, b, c) => [a, b, c]))
+  | "lrt_t", [_, items] => do
+    let items ← decList items
+    some (showOptParts (parseList idP (C18.showList id items)))
   | "lrt", [items] => do
     let items ← decList items
     some (showOptParts (parseList idP (C18.showList id items)))
